@@ -260,6 +260,10 @@ func NewConn(c net.Conn, opts ConnOpts) *Conn {
 		onDisconnect:  opts.OnDisconnect,
 	}
 
+	// From the defaults, which are what this end enforces (a decoder table of
+	// 4096 octets, frames of 2^14): a parameter left at its zero value is sent
+	// as zero, and the server would be told there is no table at all.
+	nc.current.Reset()
 	nc.current.SetMaxWindowSize(1 << 20)
 	nc.current.SetPush(false)
 
